@@ -2011,7 +2011,8 @@ def _rule7(ctx, rep):
                     return x not in y
             raise NU(norm(e)[:50])
 
-        verdicts = [c.args[0] for c in f.calls() if isinstance(c.func, ast.Attribute) and c.func.attr == 'append' and norm(c.func.value) == 'findings' and c.args and any(isinstance(x, ast.Attribute) and x.attr == '__module__' for x in ast.walk(c.args[0]))]
+        # by role: whatever is appended to the verdict list and is computed from the implementation's __module__
+        verdicts = [c.args[0] for c in f.calls() if isinstance(c.func, ast.Attribute) and c.func.attr == 'append' and c.args and any(isinstance(x, ast.Attribute) and x.attr == '__module__' for x in ast.walk(c.args[0]))]
         key = f'{f.qname}:package-or-below'
         if not verdicts:
             r.fail(key, where(f), 'rule_06 no longer appends a verdict computed from the implementation module of a previous() reference')
